@@ -215,6 +215,16 @@ func (cl *Cli) Deliver(data []byte, src *net.UDPAddr) string {
 	prev := cl.Conn.Reads()
 	_ = prev
 	if cl.Conn.Deliver(Dgram{Src: src, Dst: cl.Local, Data: data}, stop, Watchdog) {
+		// The client is reading again.  If that is the session's listen loop (the handshake
+		// succeeded), Handshake is about to return: wait for it, so that callers never see a
+		// completed handshake as unfinished.
+		if !hsWasDone && cl.C.VerifState() == transport.VerifClientStateOpen {
+			select {
+			case <-cl.HSDone:
+			case <-time.After(Watchdog):
+				return "stuck"
+			}
+		}
 		return "ok"
 	}
 	if !hsWasDone && cl.Finished() {
